@@ -81,6 +81,17 @@ var spKinds = []spKind{
 		}
 		return out
 	}, false, true, false},
+	// single-spec declarations without parentheses: the spec carries the same After space as the statement
+	// around it (nested nodes ending at the same place: the rule is not additive across nesting either)
+	{"BlockStmt.List(var)", func(n int) string {
+		return "package p\n\nfunc f() {\n" + labels(n, func(i int) string { return fmt.Sprintf("\tvar e%d = 0", i) }, "\n") + "\n}\n"
+	}, func(f *dst.File) []dst.Node {
+		var out []dst.Node
+		for _, s := range f.Decls[0].(*dst.FuncDecl).Body.List {
+			out = append(out, s)
+		}
+		return out
+	}, false, true, false},
 	{"SelectStmt.Comms", func(n int) string {
 		return "package p\n\nfunc f() {\n\tselect {\n" + labels(n, func(i int) string { return fmt.Sprintf("\tcase <-e%d:", i) }, "\n") + "\n\t}\n}\n"
 	}, func(f *dst.File) []dst.Node {
@@ -251,6 +262,11 @@ func spPrint(k spKind, es []spElem) (lines [][]string, text string, errMsg strin
 	for i, n := range nodes {
 		d := n.Decorations()
 		d.Before, d.After = dst.SpaceType(es[i].B), dst.SpaceType(es[i].A)
+		if ds, ok := n.(*dst.DeclStmt); ok && k.Name == "BlockStmt.List(var)" {
+			gd := ds.Decl.(*dst.GenDecl)
+			gd.Decs.After = d.After
+			gd.Specs[0].Decorations().After = d.After
+		}
 		d.Start.Clear()
 		d.End.Clear()
 		for j, x := range es[i].S {
